@@ -13,10 +13,20 @@ Section Limits.
   Notation lims := (c_lim cf).
   Notation n := (length (c_w cf)).
   Hypothesis Hwfc : wfc E cf.
-  (* the merit function polices the limits (Optimize(check_limits=True), the default) *)
-  Hypothesis Hchk : c_check cf = true.
+  (* unit weights and the three facts about 1 and 0 that make the solver's x
+     the knob value itself (true of IEEE doubles) *)
+  Definition unit_laws : Prop :=
+    Forall (fun w => w = e_one E) (c_w cf) /\ (forall x, e_mul E x (e_one E) = x) /\
+    (forall x, e_div E x (e_one E) = x) /\ (forall x, e_sub E x (e_zero E) = x).
+  (* either the merit function polices the limits (check_limits=True, any weights),
+     or only the Jacobian solver does (check_limits=False) and the weights are 1 *)
+  Hypothesis Hmode : c_check cf = true \/ (c_check cf = false /\ unit_laws).
 
-  Definition good_k (s : state) : Prop := wfs E cf s /\ lims_ok E lims (knobs s).
+  (* with check_limits=False the solver's x is itself inside the limits *)
+  Definition sxinv (s : state) : Prop := c_check cf = false -> forall x, sx s = Some x -> lims_ok E lims x.
+  Definition wfx (s : state) : Prop := wfs E cf s /\ sxinv s.
+
+  Definition good_k (s : state) : Prop := wfx s /\ lims_ok E lims (knobs s).
   Definition row_ok (r : row) : Prop :=
     lims_ok E lims (r_knobs r) /\ length (r_knobs r) = n /\ length (r_va r) = n.
   Definition ext_ok (s s' : state) : Prop := exists more, log s' = log s ++ more /\ Forall row_ok more.
@@ -34,8 +44,105 @@ Section Limits.
   Lemma ext_ok_nonempty s s' : ext_ok s s' -> log s <> [] -> log s' <> [].
   Proof. intros (m & L & _) H. rewrite L. destruct (log s); [congruence|discriminate]. Qed.
 
-  Lemma rt_write_good act k : lims_ok E lims k -> lims_ok E lims (rt_write E cf act k) /\ length (rt_write E cf act k) = length k.
-  Proof. intros H. unfold rt_write. rewrite Hchk. split; [apply wk_lims; auto|apply wk_length]. Qed.
+  (* ---- unit weights ------------------------------------------------------------------ *)
+  Lemma map2_unit (g : F -> F -> F) (x ws : list F) :
+    (forall a, g a (e_one E) = a) -> Forall (fun w => w = e_one E) ws -> length x = length ws -> map2 g x ws = x.
+  Proof.
+    intros Hg. revert ws; induction x as [|a x IH]; intros [|w ws] Hw Hl; cbn in *; try discriminate; auto.
+    inversion Hw; subst. rewrite Hg. f_equal. apply IH; auto.
+  Qed.
+
+  Lemma wk_self act l k : write_knobs E false act l k k = (k, false).
+  Proof.
+    revert l k; induction act as [|a act IH]; intros [|l0 l] [|v k]; cbn; auto.
+    rewrite IH. destruct a; reflexivity.
+  Qed.
+
+  Lemma unit_x_to_knobs x : unit_laws -> length x = n -> x_to_knobs E cf x = x.
+  Proof. intros (U1 & U2 & _) Hl. unfold x_to_knobs. apply map2_unit; auto. Qed.
+  Lemma unit_knobs_to_x k : unit_laws -> length k = n -> knobs_to_x E cf k = k.
+  Proof. intros (U1 & _ & U3 & _) Hl. unfold knobs_to_x. apply map2_unit; auto. Qed.
+
+  Lemma rt_write_unit act k : c_check cf = false -> unit_laws -> length k = n -> rt_write E cf act k = k.
+  Proof.
+    intros Hc U Hl. unfold rt_write. rewrite Hc, (unit_knobs_to_x k U Hl), (unit_x_to_knobs k U Hl), wk_self. reflexivity.
+  Qed.
+
+  (* an unchecked write of values that are inside the limits, over all knobs *)
+  Lemma wk_cover act l kv old k' e :
+    write_knobs E false act l kv old = (k', e) ->
+    length act = length old -> length l = length old -> length kv = length old ->
+    lims_ok E l kv -> lims_ok_in E act l old -> lims_ok E l k'.
+  Proof.
+    revert l kv old k' e; induction act as [|a act IH]; intros [|l0 l] [|v kv] [|o old] k' e; cbn; try discriminate;
+      try (intros Hw; inversion Hw; subst; cbn; auto; fail).
+    intros Hw La Ll Lk [V1 V2] [H1 H2].
+    destruct (write_knobs E false act l kv old) as [t e0] eqn:Hr.
+    destruct a; inversion Hw; subst; cbn; (split; [auto|eapply IH; eauto]).
+  Qed.
+
+  Lemma lim_loop_nil x this : lim_loop E x this [] = ([], []).
+  Proof. destruct x; [|destruct this]; reflexivity. Qed.
+  Lemma map2_nil_r (g : F -> F -> F) x : map2 g x [] = [].
+  Proof. destruct x; reflexivity. Qed.
+  Lemma lims_ok_nil l : lims_ok E l [].
+  Proof. destruct l; cbn; auto. Qed.
+
+  (* the limit test of JacobianSolver.step keeps x inside the limits: the test and
+     the update compute the same x_i - step_i, and x_i - 0 = x_i *)
+  Lemma lim_loop_lims : unit_laws -> forall (l : list (option (option F * option F))) (ws x this t : list F) h,
+    Forall (fun w => w = e_one E) ws -> lims_ok E l x ->
+    lim_loop E x this
+      (map2 (fun (l0 : option (option F * option F)) w =>
+               match l0 with
+               | Some (lo, hi) => (option_map (fun a => e_div E a w) lo, option_map (fun b => e_div E b w) hi)
+               | None => (Some (e_div E (e_lo E) w), Some (e_div E (e_hi E) w))
+               end) l ws) = (t, h) ->
+    lims_ok E l (map2 (e_sub E) x t).
+  Proof.
+    intros (_ & _ & U3 & U4). induction l as [|l0 l IH]; intros ws x this t h Hw Hl.
+    - cbn [map2]. rewrite lim_loop_nil. intros H; inversion H; subst. rewrite map2_nil_r. apply lims_ok_nil.
+    - destruct ws as [|w ws].
+      { cbn [map2]. rewrite lim_loop_nil. intros H; inversion H; subst. rewrite map2_nil_r. apply lims_ok_nil. }
+      destruct x as [|xi x]; [cbn; intros H; inversion H; subst; cbn; auto|].
+      destruct this as [|ti this]; [cbn; intros H; inversion H; subst; cbn; auto|].
+      inversion Hw; subst. destruct Hl as [Hi Hl]. cbn [map2 lim_loop].
+      match goal with |- context [lim_loop E x this ?xl] => destruct (lim_loop E x this xl) as [tl hh] eqn:Hr end.
+      specialize (IH _ _ _ _ _ H2 Hl Hr).
+      destruct l0 as [[lo hi]|].
+      + assert (Elo : option_map (fun a => e_div E a (e_one E)) lo = lo) by (destruct lo; cbn; rewrite ?U3; auto).
+        assert (Ehi : option_map (fun b => e_div E b (e_one E)) hi = hi) by (destruct hi; cbn; rewrite ?U3; auto).
+        rewrite Elo, Ehi.
+        destruct (below E lo (e_sub E xi ti)) eqn:Hb.
+        { intros H; inversion H; subst. cbn. rewrite U4. split; auto. }
+        destruct (above E hi (e_sub E xi ti)) eqn:Ha.
+        { intros H; inversion H; subst. cbn. rewrite U4. split; auto. }
+        intros H; inversion H; subst. cbn. split; auto.
+        unfold inlim, out_of_limits. rewrite Hb, Ha. reflexivity.
+      + match goal with |- (if ?c then _ else _) = _ -> _ => destruct c end;
+          [|match goal with |- (if ?c then _ else _) = _ -> _ => destruct c end];
+          intros H; inversion H; subst; cbn; (split; [reflexivity|auto]).
+  Qed.
+
+  Lemma clip_id act l k : lims_ok E l k -> clip_knobs E act l k = k.
+  Proof.
+    revert l k; induction act as [|a act IH]; intros [|l0 l] [|v k]; cbn; auto.
+    intros [Hi Hl]. rewrite (IH _ _ Hl). f_equal. destruct a; auto. destruct l0 as [[lo hi]|]; auto.
+    unfold inlim, out_of_limits in Hi. apply orb_false_iff in Hi. destruct Hi as [Hb Ha].
+    destruct lo as [a0|], hi as [b0|]; cbn in Hb, Ha; rewrite ?Hb, ?Ha; reflexivity.
+  Qed.
+
+  Lemma pre_clip_knobs s : lims_ok E lims (knobs s) -> knobs (pre_clip E cf s) = knobs s.
+  Proof. intros H. unfold pre_clip. destruct (c_check cf); stsimpl; auto. apply clip_id; auto. Qed.
+
+  (* ---- the value written by add_point_to_log's evaluation ------------------------------ *)
+  Lemma rt_write_good act k : length k = n -> lims_ok E lims k ->
+    lims_ok E lims (rt_write E cf act k) /\ length (rt_write E cf act k) = length k.
+  Proof.
+    intros Hn H. destruct Hmode as [Hc|[Hc U]].
+    - unfold rt_write. rewrite Hc. split; [apply wk_lims; auto|apply wk_length].
+    - rewrite (rt_write_unit act k Hc U Hn). auto.
+  Qed.
 
   (* ---- add_point_to_log, reload ---------------------------------------------------- *)
   Lemma add_point_good tg s : good_k s ->
@@ -43,30 +150,33 @@ Section Limits.
       (fun s' => good_k s' /\ exists r, log s' = log s ++ [r] /\ row_ok r)
       (fun e s' => good_k s' /\ log s' = log s).
   Proof.
-    intros [(W1 & W2 & W3) Hl].
+    intros [((W1 & W2 & W3) & Sx) Hl].
+    destruct (rt_write_good (va s) (knobs s) W1 Hl) as [G1 G2].
     eapply post_weaken; [apply add_point_spec| |].
     - intros s' ((V & T & _) & X & M & _ & K & (r & L & Rk & Rv & _)).
-      destruct (rt_write_good (va s) (knobs s) Hl) as [G1 G2].
       split.
-      + split; [|rewrite K; auto]. split; [rewrite K, G2; auto|]. split; [congruence|].
-        intros x Hx. rewrite X in Hx. rewrite M. auto.
+      + split; [|rewrite K; auto]. split.
+        * split; [rewrite K, G2; auto|]. split; [congruence|].
+          intros x Hx. rewrite X in Hx. rewrite M. auto.
+        * intros Hc x Hx. rewrite X in Hx. eauto.
       + exists r. split; auto. unfold row_ok. rewrite Rk, Rv. auto.
     - intros e s' ((V & T & _) & L & X & M & K).
-      destruct (rt_write_good (va s) (knobs s) Hl) as [G1 G2].
-      split; auto. split; [|rewrite K; auto]. split; [rewrite K, G2; auto|]. split; [congruence|].
-      intros x Hx. rewrite X in Hx. rewrite M. auto.
+      split; auto. split; [|rewrite K; auto]. split.
+      + split; [rewrite K, G2; auto|]. split; [congruence|].
+        intros x Hx. rewrite X in Hx. rewrite M. auto.
+      + intros Hc x Hx. rewrite X in Hx. eauto.
   Qed.
 
-  Lemma reload_good i s : wfs E cf s -> Forall row_ok (log s) ->
+  Lemma reload_good i s : wfx s -> Forall row_ok (log s) ->
     post (reload E cf i s)
       (fun s' => good_k s' /\ exists r, log s' = log s ++ [r] /\ row_ok r)
       (fun e s' => (nth_error (log s) i = None /\ s' = s) \/ (good_k s' /\ log s' = log s)).
   Proof.
-    intros (W1 & W2 & W3) Hr. unfold reload. destruct (nth_error (log s) i) as [r|] eqn:Hn; [|cbn; auto].
+    intros ((W1 & W2 & W3) & Sx) Hr. unfold reload. destruct (nth_error (log s) i) as [r|] eqn:Hn; [|cbn; auto].
     assert (Ro : row_ok r) by (eapply Forall_forall; [exact Hr|eapply nth_error_In; eauto]).
     destruct Ro as (R1 & R2 & R3).
     eapply post_weaken; [apply add_point_good| |].
-    - split; stsimpl; auto. split; auto.
+    - split; stsimpl; auto. split; [split; auto|]. exact Sx.
     - intros s' H. stsimpl. exact H.
     - intros e s' H. stsimpl. right. exact H.
   Qed.
@@ -74,29 +184,53 @@ Section Limits.
   (* ---- one Jacobian step --------------------------------------------------------------- *)
   Lemma stepped_good s s' : good_k s -> inner E s s' -> stepped E cf s s' -> good_k s'.
   Proof.
-    intros [Hw Hl] (V & T & _ & Hk) (x' & y & kp & S1 & _ & _ & S4 & S5 & S6).
+    intros [[Hw Sx] Hl] (V & T & _ & Hk) (x' & y & kp & S1 & _ & _ & S4 & S5 & S6 & (x0 & Hx0 & S7)).
     destruct (S6 Hwfc Hw) as [X1 X2]. destruct Hw as (W1 & W2 & W3).
     pose proof (kn_inact_length _ _ _ _ Hk) as Lk. pose proof (kn_inact_length _ _ _ _ S4) as Lp.
-    split.
-    - split; [congruence|]. split; [congruence|]. intros x Hx. rewrite S1 in Hx. inversion Hx; subst. auto.
-    - rewrite Hchk in S5. eapply wk_lims_full; [exact S5| | | |].
+    assert (Hwf' : wfs E cf s').
+    { split; [congruence|]. split; [congruence|]. intros x Hx. rewrite S1 in Hx. inversion Hx; subst. auto. }
+    destruct Hmode as [Hc|[Hc U]].
+    - split; [split; [exact Hwf'|intros Hc'; congruence]|].
+      rewrite Hc in S5. eapply wk_lims_full; [exact S5| | | |].
       + congruence.
       + unfold wfc in Hwfc. congruence.
       + unfold x_to_knobs. rewrite map2_length, X1, Lp, W1. lia.
       + eapply kn_inact_lims; [exact S4|]. apply lims_ok_weak; auto.
+    - assert (Hx' : lims_ok E lims x').
+      { pose proof (Sx Hc _ Hx0) as I0. destruct S7 as [->|(this & t & h & Hll & ->)]; auto.
+        destruct U as (U1 & Urest). eapply (lim_loop_lims (conj U1 Urest)); [exact U1|exact I0|exact Hll]. }
+      split; [split; [exact Hwf'|intros _ x Hx; rewrite S1 in Hx; inversion Hx; subst; exact Hx']|].
+      rewrite Hc, (unit_x_to_knobs x' U X1) in S5. eapply wk_cover; [exact S5| | | | |].
+      + congruence.
+      + unfold wfc in Hwfc. congruence.
+      + congruence.
+      + exact Hx'.
+      + eapply kn_inact_lims; [exact S4|]. apply lims_ok_weak; auto.
   Qed.
 
-  Lemma innerx_wfs s s' : wfs E cf s -> innerx E s s' -> wfs E cf s'.
+  Lemma innerx_wfx s s' : wfx s -> innerx E s s' -> wfx s'.
   Proof.
-    intros (W1 & W2 & W3) ((V & _ & _ & Hk) & X & M).
+    intros ((W1 & W2 & W3) & Sx) ((V & _ & _ & Hk) & X & M).
     pose proof (kn_inact_length _ _ _ _ Hk) as Lk.
+    split; [|intros Hc x Hx; rewrite X in Hx; eauto].
     split; [congruence|]. split; [congruence|]. intros x Hx. rewrite X in Hx. rewrite M. auto.
+  Qed.
+
+  (* solver.x := knobs / weights (solve(), and step() when the knobs moved) *)
+  Lemma reset_good s : good_k s ->
+    good_k (set_sx s (Some (knobs_to_x E cf (knobs s))) (map (fun _ => true) (knobs_to_x E cf (knobs s)))).
+  Proof.
+    intros [((W1 & W2 & W3) & Sx) Hl]. unfold good_k, wfx, wfs, sxinv; stsimpl. split; [|exact Hl]. split.
+    - split; [exact W1|]. split; [exact W2|]. intros x0 Hx. inversion Hx; subst x0.
+      split; [|rewrite map_length]; unfold knobs_to_x; rewrite map2_length, W1; lia.
+    - intros Hc x0 Hx. inversion Hx; subst x0. destruct Hmode as [Hc'|[_ U]]; [congruence|].
+      rewrite (unit_knobs_to_x _ U W1). exact Hl.
   Qed.
 
   (* ---- the loop of Optimize.step --------------------------------------------------------- *)
   Lemma step_loop_good fuel b : forall nn i s, good_k s ->
     post (step_loop E cf fuel nn i b s)
-      (fun s' => good_k s' /\ ext_ok s s') (fun e s' => wfs E cf s' /\ ext_ok s s').
+      (fun s' => good_k s' /\ ext_ok s s') (fun e s' => wfx s' /\ ext_ok s s').
   Proof.
     induction nn as [|nn IH]; intros i s Hg; cbn [step_loop].
     - cbn. split; auto. apply ext_ok_refl.
@@ -105,14 +239,11 @@ Section Limits.
                  | Some x' => if allclose_masked E (va s) x x' then s else set_sx s (Some x) (map (fun _ => true) x)
                  | None => set_sx s (Some x) (map (fun _ => true) x) end).
       assert (H0 : good_k s0 /\ log s0 = log s).
-      { assert (Hreset : good_k (set_sx s (Some x) (map (fun _ => true) x))).
-        { destruct Hg as [(W1 & W2 & W3) Hl]. unfold good_k, wfs; stsimpl. split; [|exact Hl].
-          split; [exact W1|]. split; [exact W2|]. intros x0 Hx. inversion Hx; subst x0.
-          split; [|rewrite map_length]; unfold x, knobs_to_x; rewrite map2_length, W1; lia. }
+      { pose proof (reset_good s Hg) as Hreset. fold x in Hreset.
         unfold s0. destruct (sx s); [destruct (allclose_masked E (va s) x l)|]; stsimpl; auto. }
       destruct H0 as [G0 L0].
       eapply post_bind'; [apply jac_step_spec| |].
-      { intros e s' Hx. split; [eapply innerx_wfs; [exact (proj1 G0)|exact Hx]|].
+      { intros e s' Hx. split; [eapply innerx_wfx; [exact (proj1 G0)|exact Hx]|].
         destruct Hx as ((_ & _ & L & _) & _). exists []. rewrite app_nil_r. split; auto. congruence. }
       intros s1 (I1 & S1).
       pose proof (stepped_good s0 s1 G0 I1 S1) as G1.
@@ -121,16 +252,16 @@ Section Limits.
       { unfold set_knobs_from_x; stsimpl. destruct I1 as (V & _). rewrite V. eapply wk_idem; eauto. }
       set (s2 := set_knobs_from_x E cf x' s1) in *.
       assert (G2 : good_k s2 /\ log s2 = log s1).
-      { destruct G1 as [(W1 & W2 & W3) Hl]. split; [|unfold s2, set_knobs_from_x; stsimpl; auto].
-        split; [|rewrite Hk2; auto]. split; [rewrite Hk2; auto|].
+      { destruct G1 as [((W1 & W2 & W3) & Sx) Hl]. split; [|unfold s2, set_knobs_from_x; stsimpl; auto].
+        split; [|rewrite Hk2; auto]. split; [|exact Sx]. split; [rewrite Hk2; auto|].
         unfold s2, set_knobs_from_x; stsimpl. split; auto. }
       destruct G2 as [G2 L2].
       match goal with |- post (if lpwt ?t then _ else _) _ _ => set (s3 := t) end.
       assert (G3 : good_k s3).
-      { destruct G2 as [(W1 & W2 & W3) Hl]. unfold s3; split; stsimpl; auto. split; auto. }
+      { destruct G2 as [((W1 & W2 & W3) & Sx) Hl]. unfold s3; split; stsimpl; auto. split; [split; auto|exact Sx]. }
       assert (X3 : ext_ok s s3).
       { eexists. unfold s3; stsimpl. split; [rewrite L2; destruct I1 as (_ & _ & L & _); rewrite L, L0; reflexivity|].
-        constructor; auto. destruct G2 as [(W1 & W2 & W3) Hl]. unfold row_ok; cbn. auto. }
+        constructor; auto. destruct G2 as [((W1 & W2 & W3) & Sx) Hl]. unfold row_ok; cbn. auto. }
       destruct (lpwt s3).
       + cbn. auto.
       + eapply post_weaken; [apply (IH (S i) s3 G3)| |].
@@ -144,7 +275,7 @@ Section Limits.
   (* ---- Optimize.step ---------------------------------------------------------------------- *)
   Lemma step_core_good fuel nn tb b s : good_k s -> Forall row_ok (log s) ->
     post (step_core E cf fuel nn tb b s)
-      (fun s' => good_k s' /\ ext_ok s s') (fun e s' => wfs E cf s' /\ ext_ok s s').
+      (fun s' => good_k s' /\ ext_ok s s') (fun e s' => wfx s' /\ ext_ok s s').
   Proof.
     intros Hg Hr. unfold step_core.
     eapply post_bind'; [apply (add_point_good 0%N s Hg)| |].
@@ -163,7 +294,7 @@ Section Limits.
       + split; auto. destruct X02 as (m & Lm & Fm). exists m. split; auto. congruence.
     - intros s3 (G3 & (r' & L3 & R3)). cbn. rewrite L3, set_last_app.
       split.
-      + destruct G3 as [(W1 & W2 & W3) Hl]. split; stsimpl; auto. split; auto.
+      + destruct G3 as [((W1 & W2 & W3) & Sx) Hl]. split; stsimpl; auto. split; [split; auto|exact Sx].
       + stsimpl. eapply ext_ok_trans; [exact X02|]. exists [retag E r']. split; auto.
   Qed.
 
@@ -175,31 +306,41 @@ Section Limits.
     revert fl; induction l as [|e l IH]; intros fl; cbn; auto. rewrite IH. apply set_entry_length.
   Qed.
 
+  Lemma able_wfx st t v vn s : wfx s -> wfx (able E cf st t v vn s).
+  Proof.
+    intros ((W1 & W2 & W3) & Sx). destruct (able_data E cf st t v vn s) as (K & _ & X & M & _).
+    split.
+    - split; [congruence|]. split.
+      + rewrite able_va, !set_flags_length. auto.
+      + intros x Hx. rewrite X in Hx. rewrite M. auto.
+    - intros Hc x Hx. rewrite X in Hx. eauto.
+  Qed.
   Lemma able_good st t v vn s : good_k s -> good_k (able E cf st t v vn s).
   Proof.
-    intros [(W1 & W2 & W3) Hl]. destruct (able_data E cf st t v vn s) as (K & _ & X & M & _).
-    split; [|rewrite K; auto]. split; [congruence|]. split.
-    - rewrite able_va, !set_flags_length. auto.
-    - intros x Hx. rewrite X in Hx. rewrite M. auto.
+    intros [W Hl]. destruct (able_data E cf st t v vn s) as (K & _).
+    split; [apply able_wfx; auto|rewrite K; auto].
   Qed.
   Lemma pre_flags_good a s : good_k s -> good_k (pre_flags E cf a s).
   Proof. intros H. unfold pre_flags. repeat apply able_good. exact H. Qed.
   Lemma post_flags_good a s : good_k s -> good_k (post_flags E cf a s).
   Proof. intros H. unfold post_flags. repeat apply able_good. exact H. Qed.
-  Lemma able_wfs st t v vn s : wfs E cf s -> wfs E cf (able E cf st t v vn s).
+
+  Lemma pre_clip_good s : good_k s -> good_k (pre_clip E cf s) /\ log (pre_clip E cf s) = log s.
   Proof.
-    intros (W1 & W2 & W3). destruct (able_data E cf st t v vn s) as (K & _ & X & M & _).
-    split; [congruence|]. split.
-    - rewrite able_va, !set_flags_length. auto.
-    - intros x Hx. rewrite X in Hx. rewrite M. auto.
+    intros [((W1 & W2 & W3) & Sx) Hl]. destruct (pre_clip_facts E cf s) as (V & T & L & X & M & _).
+    pose proof (pre_clip_knobs s Hl) as K. split; [|exact L].
+    split; [|rewrite K; exact Hl]. split.
+    - split; [congruence|]. split; [congruence|]. intros x Hx. rewrite X in Hx. rewrite M. auto.
+    - intros Hc x Hx. rewrite X in Hx. eauto.
   Qed.
 
   Lemma opt_step_good fuel nn tb a b s : good_k s -> Forall row_ok (log s) ->
     post (opt_step E cf fuel nn tb a b s)
-      (fun s' => good_k s' /\ ext_ok s s') (fun e s' => wfs E cf s' /\ ext_ok s s').
+      (fun s' => good_k s' /\ ext_ok s s') (fun e s' => wfx s' /\ ext_ok s s').
   Proof.
-    intros Hg Hr. unfold opt_step. rewrite (pre_clip_checked E cf s Hchk). destruct (pre_flags_data E cf a s) as (_ & Lp & _).
-    assert (Xp : forall s', ext_ok (pre_flags E cf a s) s' -> ext_ok s s').
+    intros Hg Hr. unfold opt_step. destruct (pre_clip_good s Hg) as [Hgc Lc].
+    destruct (pre_flags_data E cf a (pre_clip E cf s)) as (_ & Lp & _). rewrite Lc in Lp.
+    assert (Xp : forall s', ext_ok (pre_flags E cf a (pre_clip E cf s)) s' -> ext_ok s s').
     { unfold ext_ok. rewrite Lp. auto. }
     eapply post_bind'; [apply step_core_good; [apply pre_flags_good; auto|rewrite Lp; auto]| |].
     - intros e s' [A B]. auto.
@@ -218,13 +359,11 @@ Section Limits.
     set (x := knobs_to_x E cf (knobs s)).
     set (s0 := set_sx s (Some x) (map (fun _ => true) x)).
     assert (G0 : good_k s0 /\ log s0 = log s).
-    { destruct Hg as [(W1 & W2 & W3) Hl]. split; [|reflexivity]. unfold good_k, wfs, s0; stsimpl. split; [|exact Hl].
-      split; [exact W1|]. split; [exact W2|]. intros x0 Hx. inversion Hx; subst x0.
-      split; [|rewrite map_length]; unfold x, knobs_to_x; rewrite map2_length, W1; lia. }
+    { split; [|reflexivity]. exact (reset_good s Hg). }
     destruct G0 as [G0 L0].
     set (body := bind (opt_step E cf fuel k tb no_args b s0)
                       (fun s1 => if c_assert cf && negb (lpwt s1) then Err ERuntime s1 else Ok s1)).
-    assert (Hbody : post body (fun s' => good_k s' /\ ext_ok s s') (fun e s' => wfs E cf s' /\ ext_ok s s')).
+    assert (Hbody : post body (fun s' => good_k s' /\ ext_ok s s') (fun e s' => wfx s' /\ ext_ok s s')).
     { unfold body. eapply post_bind'; [apply opt_step_good; [exact G0|rewrite L0; exact Hr]| |].
       - intros e s' [A B]. split; [exact A|exact B].
       - intros s1 [A B].
@@ -287,7 +426,7 @@ Section Limits.
         destruct (log s); [congruence|discriminate].
       + intros e s' [G L]. rewrite L. split; auto. intros _. split; auto. rewrite L; auto.
     - unfold clear_log. eapply post_weaken; [apply (add_point_good 0%N (set_log s []))| |].
-      + destruct Hg as [(W1 & W2 & W3) Hl]. split; stsimpl; auto. split; auto.
+      + destruct Hg as [((W1 & W2 & W3) & Sx) Hl]. split; stsimpl; auto. split; [split; auto|exact Sx].
       + intros s' (G & (r & L & Ro)). stsimpl. split; auto. rewrite L. cbn. split; auto. discriminate.
       + intros e s' [G L]. stsimpl. rewrite L. split; auto. tauto.
     - cbn. split; [apply able_good; auto|]. destruct (able_data E cf true t v vn s) as (_ & L & _). rewrite L. auto.
@@ -298,11 +437,21 @@ Section Limits.
   Lemma init_good k0 va0 s0 :
     init E cf k0 va0 = Ok s0 -> length k0 = n -> length va0 = n -> lims_ok E lims k0 -> good s0.
   Proof.
-    intros Hi Lk Lv Hl. unfold init in Hi. rewrite Hchk in Hi.
+    intros Hi Lk Lv Hl. unfold init in Hi.
     assert (G : good_k (pre_init E cf k0 va0)).
-    { split; [|exact Hl]. split; [exact Lk|]. split; [exact Lv|]. intros x Hx. discriminate. }
-    pose proof (add_point_good 0%N _ G) as P. rewrite Hi in P. cbn in P.
-    destruct P as (G1 & (r & L & Ro)). split; auto. rewrite L. cbn. split; auto. discriminate.
+    { split; [|exact Hl]. split; [|intros Hc x Hx; discriminate].
+      split; [exact Lk|]. split; [exact Lv|]. intros x Hx. discriminate. }
+    pose proof (add_point_good 0%N _ G) as P.
+    assert (Hd : c_check cf = true \/ c_check cf = false) by (destruct (c_check cf); auto).
+    destruct Hd as [Hd|Hd]; rewrite Hd in Hi.
+    - rewrite Hi in P. cbn in P.
+      destruct P as (G1 & (r & L & Ro)). split; auto. rewrite L. cbn. split; auto. discriminate.
+    - destruct (add_point E cf 0%N (pre_init E cf k0 va0)) as [s1|e1 s1|]; cbn in Hi; try discriminate.
+      cbn in P. destruct P as (G1 & (r & L & Ro)).
+      assert (G1c : good_k (set_knobs s1 (clip_knobs E (va s1) lims (knobs s1)))).
+      { destruct G1 as [((W1 & W2 & W3) & Sx) Hl1]. rewrite (clip_id _ _ _ Hl1). split; stsimpl; auto. split; [split; auto|exact Sx]. }
+      pose proof (add_point_good 0%N _ G1c) as P2. rewrite Hi in P2. cbn in P2.
+      destruct P2 as (G2 & (r2 & L2 & Ro2)). split; auto. rewrite L2. stsimpl. rewrite L. cbn. split; auto. discriminate.
   Qed.
 
   (* sequences of operations in which every failing one is a restoring one *)
